@@ -294,6 +294,8 @@ def main(tier):
     # KeyError -- OrderedDict), and the caller's mapping must be left as it was
     import collections
 
+    import predicate as _P0
+
     sub_cases = 0
     for spec in A:
         if spec[0] != "haskey":
@@ -316,6 +318,70 @@ def main(tier):
                                 {"what": "has_key_p differs from `key in mapping` on a dict subclass (or changed the mapping)", "implementation": L.outcome_wire(got), "plain_python": L.outcome_wire(want), "mapping_after": repr(dict(d))}, None)
     chk.evaluations += sub_cases
     chk.extra["mapping_subclass_cases"] = sub_cases
+    # ---- strings that are canonically equivalent but different (NFD / NFC, compatibility forms, case): the comparison and
+    # membership atoms agree with Python's operators, which tell them apart (the model's string tests are ASCII: oracle only)
+    uni = ["cafe\u0301", "caf\u00e9", "CAFE\u0301", "\u212b", "\u00c5", "A\u030a", "\ufb01", "fi", "\uff21", "A", "stra\u00dfe", "STRASSE", "strasse"]
+    uni_cases = 0
+    import operator as _op
+
+    for c in uni:
+        for mk, fn in ((_P0.eq_p, _op.eq), (_P0.ne_p, _op.ne), (_P0.ge_p, _op.ge), (_P0.gt_p, _op.gt), (_P0.le_p, _op.le), (_P0.lt_p, _op.lt)):
+            p_ = mk(c)
+            for x in uni:
+                uni_cases += 1
+                got, want = L.run(p_, x), ("ok", fn(x, c))
+                if got != want:
+                    chk.add_failure({"predicate": repr(p_), "value": ascii(x)}, {"what": "differs from Python's operator on canonically equivalent / case-variant strings", "implementation": L.outcome_wire(got), "plain_python": L.outcome_wire(want)}, None)
+        for p_, want_fn in ((_P0.in_p(c, "a"), lambda x, c=c: x in {c, "a"}), (_P0.not_in_p(c, "a"), lambda x, c=c: x not in {c, "a"})):
+            for x in uni:
+                uni_cases += 1
+                got, want = L.run(p_, x), ("ok", want_fn(x))
+                if got != want:
+                    chk.add_failure({"predicate": repr(p_), "value": ascii(x)}, {"what": "differs from set membership on canonically equivalent / case-variant strings", "implementation": L.outcome_wire(got), "plain_python": L.outcome_wire(want)}, None)
+    chk.evaluations += uni_cases
+    chk.extra["unicode_equivalence_cases"] = uni_cases
+    # ---- the type tests agree with isinstance on EVERY input and at EVERY moment: values whose __class__ is not their type
+    # (mock objects with a spec, weak proxies), and a class registered as a virtual subclass between two evaluations
+    import collections.abc as _abc
+    import unittest.mock as _mock
+    import weakref as _weakref
+
+    import predicate as _P
+
+    class _Bag:  # not iterable, not registered anywhere yet
+        pass
+
+    class _Plain:
+        pass
+
+    keep = _Plain()
+    corner = [_mock.Mock(spec=dict), _mock.MagicMock(spec=list), _mock.Mock(spec=str), _weakref.proxy(keep), _Bag()]
+    tests = [("is_dict_p", _P.is_dict_p, dict), ("is_list_p", _P.is_list_p, list), ("is_str_p", _P.is_str_p, str), ("is_iterable_p", _P.is_iterable_p, _abc.Iterable),
+             ("is_container_p", _P.is_container_p, _abc.Container), ("is_hashable_p", _P.is_hashable_p, _abc.Hashable), ("is_callable_p", _P.is_callable_p, _abc.Callable),
+             ("is_instance_p(dict, list)", _P.is_instance_p(dict, list), (dict, list))]
+    inst_cases = 0
+
+    def _inst_round(label):
+        nonlocal inst_cases
+        for tname, tp, klass in tests:
+            for x in corner:
+                inst_cases += 1
+                got, want = L.run(tp, x), ("ok", isinstance(x, tp.klass))  # the predicate's own class tuple (is_hashable_p holds typing.Hashable)
+                if got != want:
+                    chk.add_failure({"predicate": tname, "value": f"{type(x).__name__} object ({label})"},
+                                    {"what": "a type test differs from isinstance", "implementation": L.outcome_wire(got), "plain_python": L.outcome_wire(want)}, None)
+
+    for tname, tp, klass in tests:  # the exported tests hold the classes their names say
+        ks = tp.klass if isinstance(tp.klass, tuple) else (tp.klass,)
+        want_ks = klass if isinstance(klass, tuple) else (klass,)
+        if [getattr(k, "__name__", str(k)) for k in ks] != [getattr(k, "__name__", str(k)) for k in want_ks]:
+            chk.add_failure({"predicate": tname}, {"what": "the exported type test does not hold the class it is named after", "klass": repr(tp.klass)}, None)
+    _inst_round("first evaluation")
+    _abc.Iterable.register(_Bag)  # from now on isinstance(_Bag(), Iterable) is True
+    _abc.Container.register(_Bag)
+    _inst_round("after Iterable.register / Container.register of its class")
+    chk.evaluations += inst_cases
+    chk.extra["isinstance_corner_cases"] = inst_cases
 
     # PropertyPredicate: the wrapper calls the getter once with the object and returns its answer (model: an instrumented leaf)
     preqs, pexp = [], []
